@@ -908,6 +908,10 @@ pub fn gen(stream: &str, tier: &str, seed: u64) -> Vec<String> {
                         out.push(format!("poll v3 {} {} eof", h, gen_sched(&mut rng, e.len())));
                         let hl = mqtt_proto::header_len(e.len());
                         out.push(format!("cwp v5 5 {} {}", e.len() - hl, hex_or_dash(&e[hl + 7..])));
+                        // the known-protocol entry points handed a FOREIGN protocol must refuse, whatever follows
+                        out.push(format!("cwp v5 4 {} {}", e.len() - hl, hex_or_dash(&e[hl + 7..])));
+                        out.push(format!("cwp v5 3 {} {}", e.len() - hl, hex_or_dash(&e[hl + 7..])));
+                        out.push(format!("cwp v3 5 {}", hex_or_dash(&e[hl + 7..])));
                         // garbage after the level byte
                         let mut g = e[..hl + 7].to_vec();
                         g.extend((0..(e.len() - hl - 7)).map(|_| rng.next() as u8));
@@ -934,6 +938,8 @@ pub fn gen(stream: &str, tier: &str, seed: u64) -> Vec<String> {
                         let plen = 2 + (e[hl + 1] as usize) + 1;
                         let lvl = e[hl + plen - 1];
                         out.push(format!("cwp v3 {} {}", lvl, hex_or_dash(&e[hl + plen..])));
+                        out.push(format!("cwp v3 5 {}", hex_or_dash(&e[hl + plen..])));
+                        out.push(format!("cwp v5 {} {} {}", lvl, e.len() - hl, hex_or_dash(&e[hl + plen..])));
                         let mut g = e[..hl + plen].to_vec();
                         g.extend((0..(e.len() - hl - plen)).map(|_| rng.next() as u8));
                         out.push(format!("dec v5 {}", hex(&g)));
